@@ -823,6 +823,11 @@ def run_vunit(u: VUnit, scratch, tier: str):
         else:
             ob.status = "discharged"
         obs.append(ob)
+    # Verus stops before verification when a loop/recursion lacks a decreases clause: nothing else in the file was checked then
+    if not tool_problem and not vr.get("verified") and any("decreases clause" in k for lst in by_label.values() for (k, _, _) in lst):
+        for ob in obs:
+            if ob.status == "discharged":
+                ob.status, ob.detail = "undecided", "not checked: verus stopped at a missing-termination-measure error elsewhere in this unit"
     # lemmas (proof fns written in the unit) as obligations
     for name in u.lemma_obligations:
         lab_hits = [(k, c, r) for lab, lst in by_label.items() for (k, c, r) in lst if name in r]
